@@ -22,6 +22,9 @@ CLAIMED = {
  'C05': ('exploration', 'deterministic simulation against a recording Conditional stub: call-history oracle (order, exactly-once, freshest state) + exact kernel invariance on small joint tables; multi-chain runs under seeded schedules',
          'The real Gibbs step runs against a recording conditional that returns unique values: per step exactly d calls, each coordinate once, every given equal to the freshest state, the state after the step exactly the returned values, other chains untouched (checked for the multi-chain sampler under W simulated workers). On random joint tables over {0,1,2}^d (d<=4) the one-step kernel is assembled from the true full conditionals evaluated at the given the library actually passed and pi K = pi is checked exactly.',
          'Trusts: the recording stub; reversed or permuted sweep orders are deliberately not violations (the statement fixes once-each and freshest-state, not the order).', '3/C05'),
+ 'C06': ('exploration', 'seeded sampling over the randomness seam only (weakest fit for this family, no fault or schedule): z-tests of per-chain time averages over K independent exactly-stationary chains + distribution / independence tests of the draws by role',
+         'All four real samplers on targets with closed-form moments (correlated Gaussians, Poisson / table pmfs with an asymmetric walk, bivariate Gaussian via Gibbs conditionals), K >= 48..256 chains started from exact draws of the target so a correct kernel is stationary from step 0; means, second and cross moments, tail and pmf cells are z-tested (alarm at |z| > 7); the draws themselves (traced momenta, Exp(1) slice draws, directions, merge / accept uniforms, MH acceptance uniforms, proposal noise) are KS- and moment-tested against N(0,1), Exp(1), U(0,1), fair coin and checked for lag-1, cross-role and cross-chain correlation.',
+         'Statistical: a clean run is evidence that no bias above roughly 3-5% of a second moment exists at the explored configurations, nothing more; subtle invariance defects with small moment effects (e.g. a distorted slice level) are below its resolution and are the business of C01-C03.', '3/C06'),
  'C07': ('exploration', 'deterministic simulation: bit-equality with the sequential single-worker run under seeded schedules, simulated worker counts, concurrently interleaved samplers and progress mode',
          'Every sampler kind (MH f32/f64/discrete, Gibbs, HMC f32/f64, NUTS f32/f64 on Gaussian and Rosenbrock targets) is built twice from the same inputs and seed and run sequentially (reference), then run() executes under 1..16 simulated pool workers with a scheduling point per transition, 2-3 samplers are interleaved per transition in one process, and run_progress runs on simulated threads/clock: all outputs must be bit-identical to the reference (NUTS progress: shifted by one). Seeds include 0, 2^32, 2^63 and u64::MAX-k; a different seed must change the output once the chain has moved; the seeded initialisers are called from several simulated threads in different orders.',
          'Trusts: shuttle; the work-claiming stub for the rayon pool (cross-checked against real pools on 1/8 of runs); MH proposals seeded by the harness (Proposal::set_seed) count as inputs; default (OS-entropy) construction is outside C07.', '3/C07'),
